@@ -52,6 +52,9 @@ Accesses == {
   A("sender",   "Save", "Storage.messages", "w", {"Storage.mu"}, FALSE, "senders_vs_inbound_resend"),
   A("dispatch", "Messages", "Storage.messages", "r", {"Storage.mu"}, FALSE, "senders_vs_inbound_resend"),
   A("timerOut", "Save", "Storage.messages", "w", {"Storage.mu"}, FALSE, "senders_vs_timers"),
+  \* ---- stored message objects (the store keeps pointers; a retransmission serializes them again) ----
+  A("timerOut", "send: stamps the header of a message it built", "stored message object", "w", {"Session.mu", "own object"}, FALSE, "resend_of_timer_messages"),
+  A("dispatch", "SendBatch: ToBytes of stored messages", "stored message object", "r", {"DefaultHandler.mu", "own object"}, FALSE, "resend_of_timer_messages"),
   \* ---- timers ----
   A("dispatch", "Timer.Refresh (inbound)", "Timer.lastUpdate(in)", "w", {"Timer.mu"}, FALSE, "timers_vs_inbound"),
   A("timerIn",  "Timer.TakeTimeout", "Timer.lastUpdate(in)", "r", {"Timer.mu"}, FALSE, "timers_vs_inbound"),
